@@ -196,3 +196,143 @@ Proof.
   destruct (b_read_name r2) as [n r3|r3|r3|w|]; try contradiction; try discriminate.
   destruct (to_int l =? br_len r3 - br_pos r2)%Z; [exact I|discriminate].
 Qed.
+
+(* ================================================================================================ *)
+(* spec_2022 glue: ReadPacket / ReadData / ReadInterest = the generated Packet parser + post-checks (spec.go).
+   The positions of the members are translated from the definitions (GenSchemas.spec_idx); the parameters-digest
+   comparison (SHA-256 over the covered range) is an arbitrary boolean `dok`.  Slice indexing is explicit. *)
+Record spec_ix := mk_ix { x_interest : nat; x_data : nat; x_lp : nat;       (* members of Packet *)
+                          xi_name : nat; xi_app : nat; xi_sig : nat;        (* Interest: NameV, ApplicationParameters, SignatureValue *)
+                          xd_name : nat;                                    (* Data: NameV *)
+                          xl_fragment : nat }.                              (* LpPacket: Fragment *)
+
+Definition fieldv (vs : list value) (i : nat) : value := nth i vs VNone.
+
+(* name[len(name)-1] *)
+Definition last_comp (n : name) : res comp := match rev n with [] => Panic P_INDEX | c :: _ => Ok c end.
+
+Definition check_interest (ix : spec_ix) (dok : bool) (iv : list value) : res unit :=
+  match fieldv iv (xi_name ix) with
+  | VName n =>
+    let app_nil := match fieldv iv (xi_app ix) with VNone => true | _ => false end in
+    let sig_nil := match fieldv iv (xi_sig ix) with VNone => true | _ => false end in
+    if negb sig_nil && app_nil then Err E_OVERFLOW
+    else if app_nil then (if existsb (fun c => ctyp c =? 2) n then Err E_OVERFLOW else Ok tt)
+    else if (length n =? 0)%nat then Err E_OVERFLOW          (* len(name) == 0 || ... *)
+    else match last_comp n with
+         | Ok c => if negb (ctyp c =? 2) then Err E_OVERFLOW else if dok then Ok tt else Err E_OVERFLOW
+         | Err e => Err e
+         | Panic w => Panic w
+         end
+  | _ => Err E_REQUIRED
+  end.
+
+Definition read_packet (ix : spec_ix) (dok : bool) (r : res parse_out) : res (list value) :=
+  match r with
+  | Ok (vs, _, _) =>
+    match fieldv vs (x_data ix) with
+    | VStruct dv => match fieldv dv (xd_name ix) with VNone => Err E_REQUIRED | _ => Ok vs end
+    | _ =>
+      match fieldv vs (x_interest ix) with
+      | VStruct iv => match check_interest ix dok iv with Ok _ => Ok vs | Err e => Err e | Panic w => Panic w end
+      | _ =>
+        match fieldv vs (x_lp ix) with
+        | VStruct lv => match fieldv lv (xl_fragment ix) with VNone => Err E_REQUIRED | _ => Ok vs end
+        | _ => Err E_MAPVAL      (* ndn.ErrWrongType *)
+        end
+      end
+    end
+  | Err e => Err e
+  | Panic w => Panic w
+  end.
+
+Definition read_data (ix : spec_ix) (r : res parse_out) : res (list value) :=
+  match r with
+  | Ok (vs, _, _) =>
+    match fieldv vs (x_data ix) with
+    | VStruct dv => match fieldv dv (xd_name ix) with VNone => Err E_REQUIRED | _ => Ok dv end
+    | _ => Err E_MAPVAL
+    end
+  | Err e => Err e
+  | Panic w => Panic w
+  end.
+
+Definition read_interest (ix : spec_ix) (dok : bool) (r : res parse_out) : res (list value) :=
+  match r with
+  | Ok (vs, _, _) =>
+    match fieldv vs (x_interest ix) with
+    | VStruct iv => match check_interest ix dok iv with Ok _ => Ok iv | Err e => Err e | Panic w => Panic w end
+    | _ => Err E_MAPVAL
+    end
+  | Err e => Err e
+  | Panic w => Panic w
+  end.
+
+Lemma check_interest_total ix dok iv : good (check_interest ix dok iv).
+Proof.
+  unfold check_interest, good. destruct (fieldv iv (xi_name ix)); try discriminate.
+  destruct (negb _ && _); [discriminate|]. destruct (match fieldv iv (xi_app ix) with VNone => true | _ => false end).
+  - destruct (existsb _ n); [discriminate|exact I].
+  - destruct (length n =? 0)%nat eqn:E; [discriminate|].
+    unfold last_comp. destruct (rev n) as [|c r] eqn:Er.
+    + apply Nat.eqb_neq in E. apply (f_equal (@length comp)) in Er. rewrite rev_length in Er. cbn in Er. congruence.
+    + destruct (negb (ctyp c =? 2)); [discriminate|]. destruct dok; [exact I|discriminate].
+Qed.
+
+Lemma glue_total ix dok r : good r -> good (read_packet ix dok r) /\ good (read_data ix r) /\ good (read_interest ix dok r).
+Proof.
+  intros Hr. unfold read_packet, read_data, read_interest, good in *.
+  destruct r as [[[vs cx] cv]|e|w]; [|repeat split; exact Hr|contradiction].
+  pose proof (check_interest_total ix dok) as Hc. unfold good in Hc. repeat split.
+  - destruct (fieldv vs (x_data ix)) as [| | | | |dv| | |]; try (destruct (fieldv vs (x_interest ix)) as [| | | | |iv| | |];
+      try (destruct (fieldv vs (x_lp ix)) as [| | | | |lv| | |]; try discriminate; destruct (fieldv lv (xl_fragment ix)); try exact I; discriminate);
+      specialize (Hc iv); destruct (check_interest ix dok iv); auto).
+    destruct (fieldv dv (xd_name ix)); try exact I; discriminate.
+  - destruct (fieldv vs (x_data ix)) as [| | | | |dv| | |]; try discriminate. destruct (fieldv dv (xd_name ix)); try exact I; discriminate.
+  - destruct (fieldv vs (x_interest ix)) as [| | | | |iv| | |]; try discriminate. specialize (Hc iv). destruct (check_interest ix dok iv); auto.
+Qed.
+
+(* ParseNat = Base.VarNum.nat_dec: accepts exactly the lengths 1, 2, 4, 8 and returns the big-endian value *)
+Lemma parse_nat_spec b : parse_nat b = if (Nat.eqb (length b) 1 || Nat.eqb (length b) 2 || Nat.eqb (length b) 4 || Nat.eqb (length b) 8)%bool
+                                       then Some (be_val b) else None.
+Proof.
+  unfold parse_nat, nat_dec.
+  destruct (length b) as [|[|[|[|[|[|[|[|[|n]]]]]]]]]; reflexivity.
+Qed.
+
+Definition ix_of_list (l : list nat) : spec_ix :=
+  mk_ix (nth 2 l 9999%nat) (nth 3 l 9999%nat) (nth 4 l 9999%nat) (nth 5 l 9999%nat) (nth 6 l 9999%nat) (nth 7 l 9999%nat)
+        (nth 8 l 9999%nat) (nth 9 l 9999%nat).
+
+(* the three entry points over both readers *)
+Definition read_packet_b ix dok sc mi (b : bytes) := read_packet ix dok (decode sc mi false b).
+Definition read_packet_w ix dok sc mi (segs : list bytes) := read_packet ix dok (decode_wire sc mi false segs).
+Definition read_data_b ix sc mi (b : bytes) := read_data ix (decode sc mi false b).
+Definition read_data_w ix sc mi (segs : list bytes) := read_data ix (decode_wire sc mi false segs).
+Definition read_interest_b ix dok sc mi (b : bytes) := read_interest ix dok (decode sc mi false b).
+Definition read_interest_w ix dok sc mi (segs : list bytes) := read_interest ix dok (decode_wire sc mi false segs).
+
+Theorem spec_glue_total ix dok sc mi :
+  (forall b, good (read_packet_b ix dok sc mi b) /\ good (read_data_b ix sc mi b) /\ good (read_interest_b ix dok sc mi b)) /\
+  (forall segs, good (read_packet_w ix dok sc mi segs) /\ good (read_data_w ix sc mi segs) /\ good (read_interest_w ix dok sc mi segs)).
+Proof.
+  split; intros x; apply glue_total; unfold good.
+  - apply decode_total_b.
+  - apply decode_total_w.
+Qed.
+
+Lemma handwritten_glue_total :
+  (forall b : bytes, parse_nat b =
+     if (Nat.eqb (length b) 1 || Nat.eqb (length b) 2 || Nat.eqb (length b) 4 || Nat.eqb (length b) 8)%bool then Some (be_val b) else None) /\
+  (forall ix dok sc mi (b : bytes),
+     match read_packet_b ix dok sc mi b with Ok _ => True | Err e => e <> E_FUEL | Panic _ => False end /\
+     match read_data_b ix sc mi b with Ok _ => True | Err e => e <> E_FUEL | Panic _ => False end /\
+     match read_interest_b ix dok sc mi b with Ok _ => True | Err e => e <> E_FUEL | Panic _ => False end) /\
+  (forall ix dok sc mi (segs : list bytes),
+     match read_packet_w ix dok sc mi segs with Ok _ => True | Err e => e <> E_FUEL | Panic _ => False end /\
+     match read_data_w ix sc mi segs with Ok _ => True | Err e => e <> E_FUEL | Panic _ => False end /\
+     match read_interest_w ix dok sc mi segs with Ok _ => True | Err e => e <> E_FUEL | Panic _ => False end).
+Proof.
+  split; [exact parse_nat_spec|].
+  split; intros ix dok sc mi x; apply (spec_glue_total ix dok sc mi).
+Qed.
